@@ -246,8 +246,87 @@ pub fn execute(p: &P, ops: &[(u64, Op)], seed: u64) -> RunOut {
     if w.converged() {
         out.stats.inc("chaos_runs_ending_converged");
     }
+    if w.violations.is_empty() {
+        let vs = exchange_final_states(&w, &mut out.stats);
+        w.violations.extend(vs);
+    }
     out.violations = w.violations;
     out
+}
+
+/// C01 on the states real cluster runs end in (whatever the faults made of them): for pairs of live
+/// instances, (1) the table read through iter_membership_state, fed to a fresh instance with
+/// broadcasting off (the documented persistence use), reproduces itself on every third-party address;
+/// (2) feeding it to that instance again changes nothing; (3) after the two restored instances
+/// exchange their full states in both directions they agree on every third-party address.
+pub fn exchange_final_states(w: &World, stats: &mut crate::frame::Stats) -> Vec<crate::frame::Violation> {
+    use crate::frame::Violation;
+    use crate::script::Driver;
+    use foca::State;
+    let mut vs = Vec::new();
+    let live = w.live_addrs();
+    let masked = |st: &[Member<SimId>], skip: &[u16]| -> Vec<Member<SimId>> {
+        let mut v: Vec<Member<SimId>> = st
+            .iter()
+            .filter(|m| !skip.contains(&m.id().addr))
+            .map(|m| if m.state() == State::Down { Member::new(*m.id(), 0, State::Down) } else { m.clone() })
+            .collect();
+        v.sort_by_key(|m| (m.id().addr, m.id().gen));
+        v
+    };
+    let restore = |addr: u16, vs: &mut Vec<Violation>, stats: &mut crate::frame::Stats| -> Option<Driver> {
+        let p = w.proc(addr)?;
+        if p.node.poisoned {
+            return None;
+        }
+        let mut setup = w.setup_for(addr, p.obs.id.gen);
+        setup.id = p.obs.id;
+        setup.acc_twin = false;
+        let mut d = Driver::new(setup);
+        let st = p.obs.state.clone();
+        d.step(Input::ApplyMany(st.clone(), false));
+        if d.dead() {
+            return None;
+        }
+        stats.inc("c01_cluster_states_restored");
+        let (want, got) = (masked(&st, &[addr]), masked(&d.obs.state, &[addr]));
+        if want != got {
+            vs.push(Violation { property: "C01", tag: "C01/restored-state-differs".into(), detail: format!("node {addr}: iter_membership_state {want:?} applied to a fresh instance gives {got:?}"), at: w.now });
+        }
+        let pre = d.obs.clone();
+        let rec = d.step(Input::ApplyMany(st, false));
+        if !rec.no_effects() || !rec.result.is_ok() || pre != d.obs {
+            vs.push(Violation { property: "C01", tag: "C01/reapplying-own-state-not-a-noop".into(), detail: format!("node {addr}: apply_many(own full state) on the restored instance: result {:?}, {} effect(s), state changed: {}", rec.result, rec.fx.len(), pre != d.obs), at: w.now });
+        }
+        Some(d)
+    };
+    let mut pairs = 0;
+    'outer: for (i, a) in live.iter().enumerate() {
+        for b in live.iter().skip(i + 1) {
+            if pairs >= 6 {
+                break 'outer;
+            }
+            pairs += 1;
+            let (Some(mut da), Some(mut db)) = (restore(*a, &mut vs, stats), restore(*b, &mut vs, stats)) else { continue };
+            let (ida, idb) = (da.id(), db.id());
+            let from_a: Vec<Member<SimId>> = da.obs.state.iter().filter(|m| *m.id() != idb).cloned().collect();
+            db.step(Input::ApplyMany(from_a, true));
+            let from_b: Vec<Member<SimId>> = db.obs.state.iter().filter(|m| *m.id() != ida).cloned().collect();
+            da.step(Input::ApplyMany(from_b, true));
+            if da.dead() || db.dead() {
+                continue;
+            }
+            stats.inc("c01_cluster_state_exchanges");
+            let (va, vb) = (masked(&da.obs.state, &[*a, *b]), masked(&db.obs.state, &[*a, *b]));
+            if !va.is_empty() {
+                stats.inc("c01_cluster_state_exchanges_nonempty");
+            }
+            if va != vb {
+                vs.push(Violation { property: "C01", tag: "C01/state-exchange-disagreement".into(), detail: format!("nodes {a} and {b} after exchanging the full states their cluster run ended in: {va:?} vs {vb:?}"), at: w.now });
+            }
+        }
+    }
+    vs
 }
 
 pub struct Chaos {
